@@ -119,6 +119,8 @@ pub fn compare(exp: &Exp, act: &Outcome) -> Verdict {
         (Ok(ev), Outcome::Err(m)) => Verdict::Mismatch("err_on_defined", format!("expected {:?}, got Err({})", ev, m)),
         (Ok(ev), Outcome::Ok(v)) => {
             let p = &exp.prec;
+            // the errors of several inexact operations compound (and are amplified by the operations between them)
+            if p.tol > 0.0 && p.inexact_ops > 2 { return Verdict::NotAsserted("CompoundedInexactOperations"); }
             // a tolerance cannot decide results at the edge of overflow (one side inf, the other just below MAX)
             if p.tol > 0.0 {
                 let big = match ev { EV::F(x) => x.abs() > 1e300, EV::N(a) => a.0[0].as_f64().abs() > 1e300, EV::C(z) => z.0.abs() > 1e300 || z.1.abs() > 1e300, _ => false };
